@@ -12,6 +12,8 @@ import sys
 import time
 import traceback
 
+from . import cov
+
 VERIF = os.path.dirname(os.path.dirname(os.path.abspath(__file__)))
 NPROC = int(os.environ.get('VERIF_NPROC', '16'))
 OUT = os.environ.get('VERIF_OUT') or VERIF   # evidence/ and replays/ go here (redirected by the self-test)
@@ -51,6 +53,7 @@ def _inconclusive():
 
 def _eval_batch(args):
     modname, cases = args
+    cov.start()
     mod = importlib.import_module(modname)
     out = []
     for c in cases:
@@ -60,6 +63,7 @@ def _eval_batch(args):
             out.append(mkres(c, nt=False, classes=['wall-clock-budget-hit-inconclusive']))
         except Exception:
             out.append({'case': c, 'key': case_hash(c), 'nt': False, 'classes': ['harness-error'], 'fails': [], 'info': None, 'harness_error': traceback.format_exc()})
+    cov.dump()
     return out
 
 
@@ -68,6 +72,7 @@ def _hyp_shard(args):
     modname, strategy_name, shard_seed, n, stratargs = args
     import hypothesis
     from hypothesis import given, settings, HealthCheck, Phase
+    cov.start()
     mod = importlib.import_module(modname)
     strat = getattr(mod, strategy_name)(*stratargs)
     out = []
@@ -84,6 +89,7 @@ def _hyp_shard(args):
             out.append({'case': case, 'key': case_hash(case), 'nt': False, 'classes': ['harness-error'], 'fails': [], 'info': None, 'harness_error': traceback.format_exc()})
 
     t()
+    cov.dump()
     return out
 
 
